@@ -531,3 +531,17 @@ func boundedProbes(e *Engine) []map[string]interface{} {
 	}
 	return out
 }
+
+// slowest: the obligations whose single slowest query took longest (slow queries are the unstable ones).
+func slowest(rr *RunResult, n int) []map[string]interface{} {
+	rs := append([]*OblResult{}, rr.Results...)
+	sort.Slice(rs, func(i, j int) bool { return rs[i].MaxSecs > rs[j].MaxSecs })
+	var out []map[string]interface{}
+	for i, r := range rs {
+		if i >= n || r.MaxSecs < 0.5 {
+			break
+		}
+		out = append(out, map[string]interface{}{"obligation": r.Name, "seconds": float64(int(r.MaxSecs*100)) / 100, "solver": r.SlowSolver})
+	}
+	return out
+}
